@@ -1123,15 +1123,18 @@ class Tensor(object):
                 if lenidx == 1:
                     sl = idx.item()
                 slicing.append(sl)
-            return self[slicing]
+            return self[tuple(slicing)]  # A list of integers would be read as an index array
 
+        if isinstance(key, torch.Tensor) and key.dtype == torch.bool:
+            key = torch.nonzero(key)  # A Boolean mask selects the positions where it is True
+        elif isinstance(key, np.ndarray) and key.dtype == bool:
+            key = np.argwhere(key)
         if isinstance(key, torch.Tensor):
             key = key.clone().detach().cpu().long()
         if (
             isinstance(key, np.ndarray)
             or isinstance(key, torch.Tensor)
-            and key.ndim == 2
-        ):
+        ) and key.ndim == 2:
             key = [key[:, col] for col in range(key.shape[1])]
 
         device = self.cores[0].device
